@@ -83,10 +83,13 @@ class FieldTypes:
     """types of the fields along an access path, from the ADT table (to decide which scalar
     leaves are tracked: bools, and the length of fixed-capacity lists with capacity <= INT_CAP)"""
 
-    def __init__(self, prog, root_ty="client::flow::Flow<B, S>"):
+    def __init__(self, prog, root_ty="client::flow::Flow<B, S>", exclude=()):
         self.prog = prog
         self.root_ty = root_ty
         self.cache = {}
+        self.only = None
+        self._rel = {}
+        self.exclude = tuple(exclude)   # field steps, e.g. ("f", "close_reason"): nothing below is tracked
 
     def adt_of(self, ty):
         head, _ = split_generics(ty)
@@ -125,7 +128,18 @@ class FieldTypes:
         self.cache[rp] = ty
         return ty
 
+    def relevant(self, rp):
+        """rp (holder variant wildcarded) lies on, above or below an inspected path"""
+        w = wildcard(rp)
+        c = self._rel.get(w)
+        if c is None:
+            c = any(r[:len(w)] == w or w[:len(r)] == r for r in self.only)
+            self._rel[w] = c
+        return c
+
     def tracked_int(self, rp):
+        if self.exclude and any(x in rp for x in self.exclude):
+            return False
         ty = self.type_at(rp)
         if ty == "bool":
             return True
@@ -142,7 +156,19 @@ class FieldTypes:
 _FT = {}
 
 
-def valuation_of(tree, path=(), ft=None, resolve=None):
+def wildcard(rp):
+    """drop the holder-variant downcast: inner.call.<V>.0.x -> inner.call.<*>.0.x (the call's fields
+    are moved unchanged from one holder variant to the next)"""
+    out = []
+    for i, st in enumerate(rp):
+        if st[0] == "v" and i > 0 and rp[i - 1] == ("f", "call"):
+            out.append(("v", "*"))
+        else:
+            out.append(st)
+    return tuple(out)
+
+
+def valuation_of(tree, path=(), ft=None, resolve=None, facts=None):
     """finite projection of the object at tree[path...]; `resolve(leaf)` may turn an atom whose
     value is determined by the path's facts into a constant"""
     n = len(path)
@@ -153,18 +179,46 @@ def valuation_of(tree, path=(), ft=None, resolve=None):
         rp = p[n:]
         if l[0] == "term" and resolve is not None:
             l = resolve(l)
-        if l[0] == "variant":
+        if l[0] in ("nc", "named"):
+            if ft is None or ft.only is None or ft.relevant(rp):
+                items.append((rp, l if l[0] == "nc" else ("nc", frozenset([l[1]]))))
+            continue
+        if ft is not None and ft.exclude and any(x in rp for x in ft.exclude):
+            continue
+        if ft is not None and ft.only is not None and not ft.relevant(rp):
+            continue
+        if l[0] in ("variant", "variants"):
             items.append((rp, l))
         elif l[0] == "int" and -1 <= l[1] <= INT_CAP and (ft is None or ft.tracked_int(rp)):
             items.append((rp, l))
+    # identity facts (named-constant sets) about values derived from the object's leaves,
+    # e.g. the class of the request method: proj(leaf term, q) -> item at rp + q
+    if facts:
+        byterm = {}
+        for p, l in tree.items():
+            if len(p) >= n and p[:n] == path and l[0] == "term":
+                byterm.setdefault(l[1], p[n:])
+        for k, c in facts.items():
+            if c[0] != "nc":
+                continue
+            base, q = (k[1], k[2]) if k[0] == "proj" else (k, ())
+            rp0 = byterm.get(base)
+            if rp0 is None and k in byterm:
+                rp0, q = byterm[k], ()
+            if rp0 is None:
+                continue
+            rp = rp0 + tuple(q)
+            if ft is None or ft.only is None or ft.relevant(rp):
+                items.append((rp, c))
     # drop entries below a variant that is not the current one (stale payloads)
-    cur = {rp[:-1]: l[1] for rp, l in items if rp and rp[-1] == ("$v",)}
+    cur = {rp[:-1]: l[1] for rp, l in items if rp and rp[-1] == ("$v",) and l[0] == "variant"}
     out = []
     for rp, l in items:
         ok = True
         for i, step in enumerate(rp):
             if step[0] == "v":
-                if cur.get(rp[:i]) != step[1]:
+                c = cur.get(rp[:i])
+                if c is not None and c != step[1]:
                     ok = False
                     break
         if ok:
@@ -175,7 +229,12 @@ def valuation_of(tree, path=(), ft=None, resolve=None):
 def materialize(st, val, root=FLOW, name="flow"):
     st.write_leaf(root, (), ("term", ("in", name)))
     for rp, l in val:
-        st.write_leaf(root, rp, l)
+        if l[0] == "nc":
+            t = mkproj(("in", name), rp)
+            st.write_leaf(root, rp, ("term", t))
+            st.facts[t] = l
+        else:
+            st.write_leaf(root, rp, l)
 
 
 def val_str(val):
@@ -191,8 +250,12 @@ def val_str(val):
     for rp, l in sorted(val, key=repr):
         if l[0] == "variant":
             parts.append("%s=%s" % (pstr(rp[:-1]), l[1]))
+        elif l[0] == "variants":
+            parts.append("%s in {%s}" % (pstr(rp[:-1]), "|".join(sorted(l[1]))))
+        elif l[0] == "nc":
+            parts.append("%s in {%s}" % (pstr(rp), "|".join(sorted(x.split("::")[-1] for x in l[1]))))
         else:
-            parts.append("%s=%d" % (pstr(rp), l[1]))
+            parts.append("%s=%s" % (pstr(rp), l[1]))
     return ", ".join(parts)
 
 
@@ -239,10 +302,43 @@ def fresh_arg(ty, idx):
     return ("val", ("in", "arg%d" % idx))
 
 
+def select_summaries(prog, reviewed_keys=()):
+    """(opaque, summarize): local functions with loops that need not be inlined by the typestate runs.
+    pure ones become uninterpreted applications; impure ones are replaced by their E1 store
+    summary provided every typestate-relevant panic site inside is discharged structurally
+    (D2 caller dispatch) or reviewed."""
+    from .effects import effects_of
+    from .panics import inventory, reachable_from, d2_discharge
+    eff = effects_of(prog)
+    opaque, summarize = set(), set()
+    details = {}
+    for b in prog.nonderived_bodies():
+        if b.kind == "Closure" or (b.impl_self or "").startswith("client::flow::Flow<"):
+            continue
+        if not b.loop_heads():
+            continue    # only functions that loop themselves; their callers are inlined as usual
+        reach = [x for x in reachable_from(prog, [b]) if not x.is_derived]
+        if eff.is_pure(b):
+            opaque.add(b.short)
+            continue
+        bad = []
+        for s in inventory(prog, reach):
+            if s.kind.split(":")[0] in ("panic", "unwrap", "expect"):
+                ok, why = d2_discharge(prog, s)
+                if not ok and ("R09.4|" + s.key) not in reviewed_keys:
+                    bad.append(s.key)
+        if not bad:
+            summarize.add(b.short)
+        details[b.short] = bad
+    return opaque, summarize, details
+
+
 class Typestate:
-    def __init__(self, prog, max_states=150000, opaque=()):
+    def __init__(self, prog, max_states=150000, opaque=(), summarize=(), exclude=(), only=None):
         self.prog = prog
+        self._cfg = dict(max_states=max_states, opaque=set(opaque), summarize=set(summarize), exclude=tuple(exclude), only=only)
         self.I = mk_interp(prog, opaque=set(opaque), max_states=max_states, dedup=True)
+        self.I.summarize = set(summarize)
         self.methods = flow_methods(prog)
         self.H = defaultdict(dict)       # state -> {valuation: provenance}
         self.panics = {}                 # key -> info
@@ -251,7 +347,92 @@ class Typestate:
         self.runs = 0
         self.paths = 0
         self.errors = []
-        self.ft = FieldTypes(prog)
+        self.ft = FieldTypes(prog, exclude=exclude)
+        self.ft.only = only
+        self.relevant = None
+        self._fts = {}
+
+    def site_keys(self):
+        if getattr(self, "_site_keys", None) is None:
+            from .panics import inventory
+            self._site_keys = {(x.body.id, x.bb): x.key for x in inventory(self.prog)}
+        return self._site_keys
+
+    def ft_for(self, S):
+        """field filter for valuations of state S (relevant leaves only, see prepass)"""
+        f = self._fts.get(S)
+        if f is None:
+            f = FieldTypes(self.prog, exclude=self._cfg["exclude"])
+            f.only = self.relevant.get(S) if self.relevant is not None else None
+            self._fts[S] = f
+        return f
+
+    def prepass(self):
+        """relevance: R(S) = leaves (holder variant wildcarded) that some method of S, run from a
+        completely unknown flow, inspects (branches on), closed under successor states. Leaves
+        outside R(S) cannot influence any method callable from S onwards and are dropped from
+        the valuations of S."""
+        insp = defaultdict(set)
+        succ = defaultdict(set)
+        I = self.I
+        for S in STATES:
+            for mi in self.methods.get(S, []):
+                I.inspected = set()
+                own_root = ("L", ("F", mi.body.id), 1)
+                I.inspect_roots = {own_root}
+                def init(st, mi=mi):
+                    st.write_leaf(FLOW, (), ("term", ("in", "flow")))
+                    for i, ty in enumerate(mi.inputs[1:], start=1):
+                        k, x = fresh_arg(ty, i)
+                        if k == "ref":
+                            st.write_leaf(x, (), ("term", ("in", "arg%d" % i)))
+                args = [{(): ("term", ("in", "flow"))}] if mi.recv == "own" else [ref(FLOW)]
+                for i, ty in enumerate(mi.inputs[1:], start=1):
+                    k, x = fresh_arg(ty, i)
+                    args.append(ref(x) if k == "ref" else {(): ("term", x)})
+                outs = []
+                holder = self.prog.adt_short("CallHolder")
+                for hv in [v["name"] for v in holder["variants"]] if holder else [None]:
+                    def init2(st, hv=hv, init=init):
+                        init(st)
+                        if hv:
+                            st.write_leaf(FLOW, (("f", "inner"), ("f", "call"), ("$v",)), ("variant", hv))
+                    a2 = list(args)
+                    if mi.recv == "own" and hv:
+                        a2[0] = {(): ("term", ("in", "flow")), (("f", "inner"), ("f", "call"), ("$v",)): ("variant", hv)}
+                    try:
+                        outs += I.run(mi.body, a2, init2)
+                    except (PathLimit, Unsupported) as e:
+                        self.errors.append("prepass %s [%s]: %s" % (mi.body.short, hv, e))
+                insp[S].add(wildcard((("f", "inner"), ("f", "call"), ("$v",))))
+                for (root, path) in I.inspected:
+                    if root == FLOW or (root == own_root and mi.recv == "own"):
+                        insp[S].add(wildcard(path))
+                # by-value receivers: leaves are read from the argument local, not from FLOW
+                for o in outs:
+                    if o.kind == "return":
+                        for S2, p in find_flows(self.prog, o.ret, mi.output):
+                            # only a flow that is *converted* (self by value) hands its fields on;
+                            # as_new_flow builds a fresh flow around the old request
+                            succ[S].add((S2, mi.recv == "own"))
+                I.inspected = None
+        # for `self`-consuming methods the flow is an argument local: re-run with the flow at FLOW is not
+        # possible, so treat every leaf they could branch on as inspected via a second pass on locals
+        self._insp_raw = insp
+        changed = True
+        R = {S: set(insp[S]) for S in STATES}
+        while changed:
+            changed = False
+            for S in STATES:
+                for S2, inherit in succ[S]:
+                    add = R[S2] if inherit else set(r for r in R[S2] if ("f", "request") in r)
+                    if not add <= R[S]:
+                        R[S] |= add
+                        changed = True
+        self.relevant = R
+        self.succ_static = succ
+        self._fts = {}
+        return R
 
     def resolver(self, st):
         I = self.I
@@ -263,6 +444,8 @@ class Typestate:
             c = st.facts.get(leaf[1])
             if c and c[0] == "iv" and len(c[1]) == 1 and c[1][0][0] == c[1][0][1]:
                 return ("int", c[1][0][0])
+            if c and c[0] == "nc":
+                return c   # identity among named constants (e.g. the request method class)
             return leaf
         return resolve
 
@@ -283,7 +466,7 @@ class Typestate:
             if o.kind != "return":
                 continue
             for S, p in find_flows(self.prog, o.ret, new.raw["sig_output"]):
-                self._add(S, valuation_of(o.ret, p, self.ft, self.resolver(o.state)), "Flow::new")
+                self._add(S, valuation_of(o.ret, p, self.ft_for(S), self.resolver(o.state), o.state.facts), "Flow::new")
 
     def _add(self, S, val, prov):
         if val not in self.H[S]:
@@ -292,23 +475,72 @@ class Typestate:
 
     def _panic(self, S, val, mname, o):
         info = o.info if isinstance(o.info, dict) else {"kind": str(o.info), "body": None, "src": None}
-        fn = info["body"].short if info.get("body") is not None else "?"
-        key = (S, mname, fn, info["kind"])
+        body = info.get("body")
+        fn = body.short if body is not None else "?"
+        skey = None
+        if body is not None:
+            skey = self.site_keys().get((body.id, info.get("bb")))
+        key = (S, mname, skey or ("%s|%s" % (fn, info["kind"])))
         if key not in self.panics:
-            self.panics[key] = dict(state=S, method=mname, site_fn=fn, kind=info["kind"], info=info,
+            self.panics[key] = dict(state=S, method=mname, site_fn=fn, kind=info["kind"], site_key=skey,
+                                    site_id=(body.id, info.get("bb")) if body is not None else None,
+                                    loc=body.loc(info["src"]) if body is not None and info.get("src") else None,
                                     valuation=val, prov=self.H[S].get(val) if val is not None else None, count=0)
         self.panics[key]["count"] += 1
 
-    def run(self, limit_valuations=4000):
+    def run(self, limit_valuations=4000, jobs=1, time_limit=None):
+        import time as _t
+        t0 = _t.time()
         self.work = []
         self.seed()
+        if jobs <= 1:
+            while self.work:
+                S, val = self.work.pop()
+                if sum(len(h) for h in self.H.values()) > limit_valuations:
+                    self.errors.append("more than %d valuations: fixpoint not reached" % limit_valuations)
+                    break
+                if time_limit and _t.time() - t0 > time_limit:
+                    self.errors.append("time limit %ds reached with %d work items left" % (time_limit, len(self.work)))
+                    break
+                for mi in self.methods.get(S, []):
+                    self.step(S, val, mi)
+            return self
+        import multiprocessing as mp
+        ctx = mp.get_context("fork")
+        global _WORKER_TS
+        rounds = 0
         while self.work:
-            S, val = self.work.pop()
+            rounds += 1
+            items = self.work
+            self.work = []
             if sum(len(h) for h in self.H.values()) > limit_valuations:
                 self.errors.append("more than %d valuations: fixpoint not reached" % limit_valuations)
                 break
-            for mi in self.methods.get(S, []):
-                self.step(S, val, mi)
+            if time_limit and _t.time() - t0 > time_limit:
+                self.errors.append("time limit %ds reached with %d work items left" % (time_limit, len(items)))
+                break
+            _WORKER_TS = self
+            chunks = [items[i::jobs * 3] for i in range(jobs * 3)]
+            chunks = [c for c in chunks if c]
+            with ctx.Pool(min(jobs, len(chunks))) as pool:
+                results = pool.map(_worker, chunks)
+            for r in results:
+                for (S, val, prov) in r["new"]:
+                    self._add(S, val, prov)
+                for k, p in r["panics"].items():
+                    if k not in self.panics:
+                        self.panics[k] = p
+                    else:
+                        self.panics[k]["count"] += p["count"]
+                for k, v in r["edges"].items():
+                    self.edges[k] |= v
+                self.results.update(r["results"])
+                self.runs += r["runs"]
+                self.paths += r["paths"]
+                self.errors.extend(r["errors"])
+                self.I.visited_blocks |= r["visited"]
+                self.I.assumed_sites |= r["assumed"]
+        self.rounds = rounds
         return self
 
     def step(self, S, val, mi):
@@ -322,7 +554,7 @@ class Typestate:
         if mi.recv == "own":
             tree = {(): ("term", ("in", "flow"))}
             for rp, l in val:
-                tree[rp] = l
+                tree[rp] = ("term", mkproj(("in", "flow"), rp)) if l[0] == "nc" else l
             args.append(tree)
         else:
             args.append(ref(FLOW))
@@ -345,13 +577,41 @@ class Typestate:
                 continue
             succ = []
             for S2, p in find_flows(self.prog, o.ret, mi.output):
-                v2 = valuation_of(o.ret, p, self.ft, self.resolver(o.state))
+                v2 = valuation_of(o.ret, p, self.ft_for(S2), self.resolver(o.state), o.state.facts)
                 succ.append((S2, v2))
                 self.edges[(S, mi.name)].add(S2)
                 self._add(S2, v2, "%s::%s from [%s]" % (S, mi.name, val_str(val)))
             exitv = None
             if mi.recv == "mut":
-                exitv = valuation_of(o.state.read_tree(FLOW, ()), (), self.ft, self.resolver(o.state))
+                exitv = valuation_of(o.state.read_tree(FLOW, ()), (), self.ft_for(S), self.resolver(o.state), o.state.facts)
                 self._add(S, exitv, "%s::%s (in place) from [%s]" % (S, mi.name, val_str(val)))
             res.append((shape(o.ret), succ, exitv))
         self.results[(S, val, mi.name)] = res
+
+
+_WORKER_TS = None
+
+
+def _worker(items):
+    """runs in a forked child: process a batch of (state, valuation) items on a private copy"""
+    ts = _WORKER_TS
+    known = {S: set(h) for S, h in ts.H.items()}
+    ts.work = []
+    ts.panics = {}
+    ts.edges = defaultdict(set)
+    ts.results = {}
+    ts.errors = []
+    ts.runs = 0
+    ts.paths = 0
+    ts.I.visited_blocks = set()
+    ts.I.assumed_sites = set()
+    new = []
+    for S, val in items:
+        for mi in ts.methods.get(S, []):
+            ts.step(S, val, mi)
+    for S, h in ts.H.items():
+        for val, prov in h.items():
+            if val not in known.get(S, ()):
+                new.append((S, val, prov))
+    return dict(new=new, panics=ts.panics, edges=dict(ts.edges), results=ts.results, errors=ts.errors,
+                runs=ts.runs, paths=ts.paths, visited=ts.I.visited_blocks, assumed=ts.I.assumed_sites)
